@@ -287,9 +287,7 @@ class Ctx:
         return out
 
 
-def T(k, id=-1, ch=(), keys=(), meta=0, cls=0, ent=(), hasent=False, fault=''):
-    return {'k': k, 'id': id, 'ch': list(ch), 'keys': [list(x) for x in keys], 'meta': meta, 'cls': cls,
-            'ent': [list(x) for x in ent], 'hasent': hasent, 'fault': fault}
+from harness.vuniv_model import T  # noqa: E402,F401
 
 
 def realise(t, ctx):
@@ -339,7 +337,7 @@ def project(o, ctx, fresh=True):
         return T('leaf', ctx.id_of(o, fresh))
     cid = ctx.idmap.get(id(o), -1)
     if ty is tuple:
-        return T('tuple', cid, [project(c, ctx, fresh) for c in o])
+        return T('tuple', cid if len(o) else -1, [project(c, ctx, fresh) for c in o])   # () is a singleton: no identity
     if ty is list:
         return T('list', cid, [project(c, ctx, fresh) for c in o])
     if ty is deque:
